@@ -95,7 +95,7 @@ func init() {
 	core.Register(&core.Prop{
 		ID:    "C12",
 		Level: "model_checking",
-		Rule: "trees obtained by parsing every canonical corpus variant (<=1 gap insertion; thorough <=2), by filling every decoration point (block comments / line comments / newlines) and by editing every list (reverse, drop first, duplicate last via Clone), " +
+		Rule: "trees obtained by parsing every canonical corpus variant (<=1 gap insertion; thorough <=2) and every file of the non-canonical corpus as written (<=1 insertion), by filling every decoration point (block comments / line comments / newlines) and by editing every list (reverse, drop first, duplicate last via Clone), " +
 			"restored with Extras off and on, alone, into a populated FileSet, and as every ordered sequence of <=3 (quick: pairs + selected triples) corpus files restored by one Restorer (fresh FileRestorer per file, and one FileRestorer reused for all) into one FileSet, all files re-examined after the last restore; " +
 			"plus import-managed restores of every import-bearing template (<=1 insertion; thorough <=2; every ordered template pair through one Restorer / one FileRestorer) in four modes: imports kept, import declarations removed so that the restorer creates them, every path renamed through FileRestorer.Alias, a reference to a not yet imported package appended; " +
 			"oracle by reflection: every assigned Pos inside the one registered file, files disjoint, line table strictly increasing, comments sorted, order of all positions consistent with a fresh parse of the printed text, format.Node repeatable; " +
@@ -108,6 +108,9 @@ func init() {
 			}
 			for _, t := range importTemplates() {
 				u = append(u, "imports/"+t.Name)
+			}
+			for _, t := range gen.Load("noncanonical.txt") {
+				u = append(u, "raw/"+t.Name)
 			}
 			return u
 		},
@@ -130,6 +133,22 @@ func runC12(ctx *core.Ctx, unit int) {
 		}
 	}()
 	ts := gen.Templates()
+	if n := 2*len(ts) + len(importTemplates()); unit >= n {
+		// valid files that are not gofmt's output, as written (not canonicalised), with every single insertion
+		t := gen.Load("noncanonical.txt")[unit-n]
+		forEachInsertion(ctx, t, gen.Sigma, 1, 0, 1, func(cand string, ins []gen.Ins, _ []int) {
+			if !gen.Parses(cand) {
+				return
+			}
+			for _, extras := range []bool{false, true} {
+				cs := c12Case{Srcs: []string{cand}, Edit: "none", Extras: extras}
+				ctx.State(fmt.Sprint("raw|", extras, cand), true)
+				ctx.Eval(cs, c12Check(cs))
+				ctx.R.Transitions++
+			}
+		})
+		return
+	}
 	if unit >= 2*len(ts) {
 		// import-managed restore: identifiers expand to selectors, import declarations are updated or created
 		its := importTemplates()
